@@ -53,6 +53,10 @@ pub enum AOp {
     /// poll the subscriber's Stream once (keeps its waker; re-polled by the executor when woken)
     SubPoll(u8),
     SubNext(u8),
+    /// `sub.read().await`: the guard is held by the harness on completion
+    SubAcquireRead(u8),
+    /// `sub.next_ref().await` (started only when something new is available): guard held on completion
+    SubNextRef(u8),
     CloneOwner,
     DropOwner,
 }
@@ -73,6 +77,8 @@ enum Out {
     Sub(Sub),
     SubVal(usize, MOVal),
     SubNext(usize, Option<MOVal>),
+    SubGuard(usize, RG, bool),
+    SubNextRefNone(usize),
 }
 
 struct Task {
@@ -87,6 +93,8 @@ struct Task {
 enum Held {
     W(WG),
     R(RG),
+    /// read guard obtained through a subscriber (which stays borrowed while it is held)
+    RS(RG, usize),
 }
 
 struct SubSlot {
@@ -170,6 +178,8 @@ fn show(o: &Out) -> String {
         Out::WriteGuard(_) => "write guard".into(),
         Out::ReadGuard(_) => "read guard".into(),
         Out::Sub(_) => "subscriber".into(),
+        Out::SubGuard(..) => "subscriber read guard".into(),
+        Out::SubNextRefNone(_) => "None".into(),
     }
 }
 
@@ -193,7 +203,7 @@ impl World {
         self.held.iter().flatten().any(|h| matches!(h, Held::W(_)))
     }
     fn read_held(&self) -> bool {
-        self.held.iter().flatten().any(|h| matches!(h, Held::R(_)))
+        self.held.iter().flatten().any(|h| matches!(h, Held::R(_) | Held::RS(..)))
     }
     fn owner(&self) -> Option<&'static Obs> {
         self.owners.first().map(|p| unsafe { &**p })
@@ -252,6 +262,21 @@ impl World {
             Out::Val(x) => {
                 let v = self.value;
                 self.check(x == v, || format!("{what} returned {:?}, model value {:?}", x, v))?;
+            }
+            Out::SubGuard(s, g, marks_observed) => {
+                let seen = (*g).m();
+                let v = self.value;
+                self.check(seen == v, || format!("{what}: guard derefs to {:?}, model value {:?}", seen, v))?;
+                if marks_observed {
+                    self.check(!self.closed, || format!("{what} yielded a guard although the observable is closed"))?;
+                    self.subs[s].unseen = false;
+                }
+                // the subscriber stays borrowed by the guard
+                self.subs[s].busy = true;
+                self.held.push(Some(Held::RS(g, s)));
+            }
+            Out::SubNextRefNone(_s) => {
+                self.check(self.closed, || format!("{what} resolved to None although the observable is alive"))?;
             }
             Out::Sub(s) => {
                 let p = Box::into_raw(Box::new(s));
@@ -420,6 +445,10 @@ impl World {
             AOp::Release(ix) => {
                 let live: Vec<usize> = (0..self.held.len()).filter(|i| self.held[*i].is_some()).collect();
                 if let Some(i) = pick(ix, live.len()) {
+                    if let Some(Held::RS(_, s)) = &self.held[live[i]] {
+                        let s = *s;
+                        self.subs[s].busy = false;
+                    }
                     self.held[live[i]] = None;
                 }
             }
@@ -516,6 +545,30 @@ impl World {
                     }
                 }
             }
+            AOp::SubAcquireRead(ix) | AOp::SubNextRef(ix) => {
+                let free: Vec<usize> = (0..self.subs.len()).filter(|i| !self.subs[*i].busy && self.subs[*i].stream_flag.is_none()).collect();
+                let Some(i) = pick(ix, free.len()) else { return Ok(()) };
+                let s = free[i];
+                if self.held.iter().flatten().count() + self.tasks.iter().filter(|t| t.fut.is_some()).count() >= 6 {
+                    return Ok(());
+                }
+                let sub: &'static mut Sub = unsafe { &mut *self.subs[s].sub };
+                if matches!(op, AOp::SubAcquireRead(_)) {
+                    self.spawn(format!("read on subscriber {s}"), None, Some(s), Box::pin(async move { Out::SubGuard(s, sub.read().await, false) }));
+                } else if self.subs[s].unseen || self.closed {
+                    self.spawn(
+                        format!("next_ref on subscriber {s}"),
+                        None,
+                        Some(s),
+                        Box::pin(async move {
+                            match sub.next_ref().await {
+                                Some(g) => Out::SubGuard(s, g, true),
+                                None => Out::SubNextRefNone(s),
+                            }
+                        }),
+                    );
+                }
+            }
             AOp::SubPoll(ix) => {
                 let free: Vec<usize> = (0..self.subs.len()).filter(|i| !self.subs[*i].busy && self.subs[*i].stream_flag.is_none()).collect();
                 let Some(i) = pick(ix, free.len()) else { return Ok(()) };
@@ -563,8 +616,12 @@ pub fn run(case: &AsyncCase, prop: Prop) -> R<CaseReport> {
         // finale: release every guard; everything must drain
         // (a queued acquire task completes and hands the harness a new guard: release those too)
         for _ in 0..64 {
-            for h in w.held.iter_mut() {
-                *h = None;
+            for i in 0..w.held.len() {
+                if let Some(Held::RS(_, s)) = &w.held[i] {
+                    let s = *s;
+                    w.subs[s].busy = false;
+                }
+                w.held[i] = None;
             }
             w.run_ready()?;
             if !w.write_held() && !w.read_held() {
@@ -641,6 +698,8 @@ pub fn case() -> BoxedStrategy<AsyncCase> {
         2 => ix().prop_map(AOp::SubNextNow),
         5 => ix().prop_map(AOp::SubPoll),
         2 => ix().prop_map(AOp::SubNext),
+        2 => ix().prop_map(AOp::SubAcquireRead),
+        2 => ix().prop_map(AOp::SubNextRef),
         1 => Just(AOp::CloneOwner),
         1 => Just(AOp::DropOwner),
     ];
